@@ -8,7 +8,7 @@ use crate::gen;
 use crate::indep::decode;
 use crate::model::*;
 use crate::runner::{Obs, Prop, Tier};
-use crate::sink::{apply_prefix, apply_prefix_over, Op, OpKind, SharedSink};
+use crate::sink::{apply_prefix, apply_prefix_over_at, Op, OpKind, SharedSink};
 use bigtools::ZoomRecord;
 use proptest::prelude::*;
 use serde::{Deserialize, Serialize};
@@ -313,7 +313,7 @@ impl Prop for C14 {
         "for each generated small C01/C02 case the operations that reach the destination (below the BufWriter) are recorded; ENUMERATED per case: every prefix k in 0..=K of that log \
          (thorough: plus torn final writes at 64-byte cuts) is handed to the readers — it must be rejected (open or some query fails/panics) or serve the complete model (chromosome table, \
          every chromosome's records, every advertised zoom level, boundary queries); and for every operation kind and every index k the k-th write / seek / flush fails once (and, separately, \
-         fails from then on): the call must not return Ok and must return within the deadline. Refused inputs (C13 classes): whatever is left must be rejected or self-consistent. Small cases are also written a second time over a destination that already holds an older complete file of the same layout: every cut must be rejected or serve the old file completely or the new one completely. \
+         fails from then on): the call must not return Ok and must return within the deadline. Refused inputs (C13 classes): whatever is left must be rejected or self-consistent. Small cases are also written a second time over a destination that already holds an older complete file of the same layout (cursor at the start, in the middle or at the end of it): every cut must be rejected or serve the old file completely or the new one completely. \
          evaluations = prefixes + faults; FIXED: the real bedgraphtobigwig / bedtobigbed (threads 1/4, --parallel yes/no, one/two pass, both buffering modes) writing to /dev/full must terminate and must not exit 0. \
          non-trivial = prefixes lying after the first data write and before the header rewrite, and faults hit by a spawned task's write (counted per point; distinct by construction)"
             .into()
@@ -557,16 +557,19 @@ impl Prop for C14 {
                         let s0 = SharedSink::new();
                         if write_inner(&old, s0.clone()).is_ok() {
                             let old_bytes = s0.bytes();
-                            let s1 = SharedSink::recording_over(old_bytes.clone());
+                            // the handle's cursor: at the start, or left somewhere by an earlier read of the old file
+                            for start in [0usize, old_bytes.len() / 2, old_bytes.len()] {
+                            let s1 = SharedSink::recording_over_at(old_bytes.clone(), start as u64);
                             if write_inner(case, s1.clone()).is_ok() {
                                 let log2 = s1.log();
                                 for k in 0..=log2.len() {
                                     crate::runner::mark_progress();
-                                    let bytes = apply_prefix_over(old_bytes.clone(), &log2, k, None);
+                                    let bytes = apply_prefix_over_at(old_bytes.clone(), start, &log2, k, None);
                                     if let Outcome::Wrong(m) = serves(case, bytes.clone()) {
                                         if !matches!(serves(&old, bytes), Outcome::Complete) {
                                             return Err(format!(
-                                                "a destination that held an older complete file, rewritten and cut after {} of {} operations, opens and answers every query but serves neither the old nor the new file completely: {}",
+                                                "a destination that held an older complete file, rewritten (cursor initially at {}) and cut after {} of {} operations, opens and answers every query but serves neither the old nor the new file completely: {}",
+                                                start,
                                                 k,
                                                 log2.len(),
                                                 m
@@ -576,6 +579,7 @@ impl Prop for C14 {
                                     obs.evals += 1;
                                 }
                                 obs.label("rewrite-over-older-file");
+                            }
                             }
                         }
                     }
